@@ -102,7 +102,9 @@ def deductive(rep: Report, tier):
 
     # ------------------------------------------------------------------ tridiagonalize glue and guards
     def k_herm(I, args, kwargs):
-        return args[0].conj().transpose()
+        out = args[0].conj().transpose()
+        cur().ghost.setdefault("herm_calls", []).append((args[0], out))
+        return out
 
     def k_internal(I, args, kwargs):
         (A,) = args
@@ -120,8 +122,15 @@ def deductive(rep: Report, tier):
     def allclose_model(val):
         def f(a, b, rtol=None, atol=None, **kw):
             cur().ghost["allclose_atol"] = atol
+            cur().ghost["allclose_args"] = (a, b)
             return val
         return f
+
+    def guard_compares_whole_matrix(ctx, A):
+        """the Hermitian test is np.allclose of the WHOLE argument with its conjugate transpose (diagonal included: a Hermitian matrix has a real diagonal)"""
+        ab = ctx.ghost.get("allclose_args")
+        hs = [o for a, o in ctx.ghost.get("herm_calls", []) if a is A]
+        return bool(ab is not None and hs and ((ab[0] is A and any(ab[1] is h for h in hs)) or (ab[1] is A and any(ab[0] is h for h in hs))))
 
     def mk(val):
         l = Library("idx")
@@ -143,9 +152,11 @@ def deductive(rep: Report, tier):
         atol = ctx.ghost.get("allclose_atol")
         return [("returns_pair", True), ("reduces_the_argument", g1[0] is A), ("P_of_internal_reduction", val[0] is g1[1]),
                 ("B_is_cleaned_internal_B", g2[0] is g1[2] and val[1] is g2[1]),
-                ("hermitian_guard_tolerance_le_1e-8", isinstance(atol, Fraction) and atol <= Fraction(1, 10**8))]
+                ("hermitian_guard_tolerance_le_1e-8", isinstance(atol, Fraction) and atol <= Fraction(1, 10**8)),
+                ("hermitian_guard_compares_the_whole_matrix_with_its_conjugate_transpose", guard_compares_whole_matrix(ctx, A))]
     run_case(rep, P, TD + "tridiagonalize", "hermitian", setup_t, post_t, lib=mk(True), contracts=tcon,
-             clauses=["returns_pair", "reduces_the_argument", "P_of_internal_reduction", "B_is_cleaned_internal_B", "hermitian_guard_tolerance_le_1e-8"], replay=replay_tridiag)
+             clauses=["returns_pair", "reduces_the_argument", "P_of_internal_reduction", "B_is_cleaned_internal_B", "hermitian_guard_tolerance_le_1e-8",
+                      "hermitian_guard_compares_the_whole_matrix_with_its_conjugate_transpose"], replay=replay_tridiag)
     raises = lambda I, ctx, outcome, val, aux: [("raises_ValueError", outcome == "raise" and val.exc_type == "ValueError")]
     run_case(rep, P, TD + "tridiagonalize", "guard_nonhermitian", setup_t, raises, lib=mk(False), contracts=tcon, clauses=["raises_ValueError"])
 
@@ -241,8 +252,9 @@ def deductive(rep: Report, tier):
         (k_,) = ix.fresh_indices(ctx, [n], "l")
         e = ev.at(k_) if isinstance(ev, ix.IArr) else None
         out_l.append(("returns_solver_eigenvalues", e is not None and ix.CScal.lift(e) == ix.CScal(lam.at(k_), Fraction(0))))
+        out_l.append(("hermitian_guard_compares_the_whole_matrix_with_its_conjugate_transpose", guard_compares_whole_matrix(ctx, A)))
         return out_l
-    ecl = ["returns_from_one_eigensolve", "tridiagonalises_the_argument", "solver_has_orthonormal_eigenvector_contract", "solves_the_real_tridiagonal_matrix",
+    ecl = ["hermitian_guard_compares_the_whole_matrix_with_its_conjugate_transpose", "returns_from_one_eigensolve", "tridiagonalises_the_argument", "solver_has_orthonormal_eigenvector_contract", "solves_the_real_tridiagonal_matrix",
            "left_factor_is_P_hermitian", "right_factor_is_solver_vectors", "returns_back_transformed_vectors", "returns_solver_eigenvalues"]
     run_case(rep, P, EG + "quaternion_eigendecomposition", "hermitian", setup_e, post_e, lib=mk_e(True), contracts=econ, loop_rules=conv_rules(), clauses=ecl,
              replay=replay_eig, timeout_s=30)
@@ -625,27 +637,57 @@ def bounded(rep: Report, tier, seed):
     H4 = hermitian_from_spectrum(rng, [1.0, 2.0, 3.0])
     Hm = H4.copy()
     Hm[2, 0, 1] += 1e-3
+    Hd = H4.copy()
+    Hd[1, 1, 2] += 0.5                     # Hermitian off the diagonal, one diagonal entry with a vector part
+    Qd = np.zeros((3, 3, 4))
+    for i_ in range(3):
+        Qd[i_, i_] = rng.standard_normal(4)  # quaternion diagonal matrix
     one = lambda *q: np.array(q, dtype=float).reshape(1, 1, 4)
     for nm, a in (("eig:1x1_i", one(1.0, 2.0, 0.0, 0.0)), ("eig:1x1_jk", one(0.0, 0.0, 1.0, -1.0)), ("eig:1x1_tiny_imag", one(3.0, 0.0, 1e-3, 0.0))):
         b2.case(f"{P}.bounded.reject.{nm}", (nm,), must_raise(eg.quaternion_eigendecomposition, rt.q_from4(a)), f"rejection {nm}")
     for nm, f, a in (("eig:nonhermitian", eg.quaternion_eigendecomposition, N4), ("eig:margin", eg.quaternion_eigendecomposition, Hm), ("eig:nonsquare", eg.quaternion_eigendecomposition, rng.standard_normal((2, 3, 4))),
+                     ("eig:diagonal_with_vector_part", eg.quaternion_eigendecomposition, Hd), ("eig:quaternion_diagonal", eg.quaternion_eigendecomposition, Qd),
+                     ("tridiag:diagonal_with_vector_part", td.tridiagonalize, Hd), ("tridiag:quaternion_diagonal", td.tridiagonalize, Qd),
                      ("tridiag:nonhermitian", td.tridiagonalize, N4), ("tridiag:margin", td.tridiagonalize, Hm), ("tridiag:1x1", td.tridiagonalize, np.ones((1, 1, 4)) * [1, 0, 0, 0])):
         b2.case(f"{P}.bounded.reject.{nm}", (nm,), must_raise(f, rt.q_from4(a)), f"rejection {nm}")
     b2.done()
+    b3 = rep.add_bounded(Bounded("call_histories", "results of an n = 2 / n = 3 call held while further calls of other sizes run", "held P, B, eigenvalues, V bit-for-bit unchanged by later calls"))
+
+    def held(n):
+        def g():
+            A4 = hermitian_from_spectrum(np.random.default_rng(seed + n), [float(i + 1) for i in range(n)])
+            P1, B1 = td.tridiagonalize(rt.q_from4(A4.copy()))
+            lam1, V1 = eg.quaternion_eigendecomposition(rt.q_from4(A4.copy()))
+            keep = [rt.q_to4(P1).copy(), rt.q_to4(B1).copy(), np.array(lam1).copy(), rt.q_to4(V1).copy()]
+            for k in (2, 3, 4):
+                C4 = hermitian_from_spectrum(np.random.default_rng(seed + 10 * k), [float(-i - 1) for i in range(k)])
+                td.tridiagonalize(rt.q_from4(C4.copy()))
+                eg.quaternion_eigendecomposition(rt.q_from4(C4.copy()))
+            now = [rt.q_to4(P1), rt.q_to4(B1), np.array(lam1), rt.q_to4(V1)]
+            for nm, a, b_ in zip(("P", "B", "eigenvalues", "V"), keep, now):
+                if not np.array_equal(a, b_):
+                    return {"what": f"{nm} returned by an earlier {n}x{n} call was changed by later calls"}
+            return None
+        return g
+    for n in (2, 3):
+        b3.case(f"{P}.bounded.call_history", (n,), held(n), f"results of a {n}x{n} call held across later calls")
+    b3.done()
 
 
 def run(tier, seed):
     rep = Report(P, tier, seed, "exploration")
     rep.assumptions += [
         "np.linalg.eigh contract: B V = V diag(w), V^T V = I, w real ascending (np.linalg.eig would only give B V = V diag(w)); np.allclose as documented",
-        "the recursive reduction internal_tridiagonalizer is used by tridiagonalize through its contract (P unitary, B = P A P^H), which is decided by the bounded stand-in, not proved (block recursion outside the engine's reach)",
-        "householder_matrix proved shape-bounded (lengths 1, 2 (3)), checked on the real code up to length 5 (C09)",
+        "tridiagonalize uses internal_tridiagonalizer through its contract (P unitary, B = P A P^H); the contract itself is discharged by recursion_obligations (block form, induction hypothesis on the recursive call)",
+        "householder_vector / householder_matrix: all-lengths obligations in the vector-level domain plus shape-bounded entrywise obligations (lengths 1, 2 (3)); checked on the real code up to length 5 (C09)",
     ]
     rep.trusted += ["qv engine", "sympy 1.14", "z3 5.1", "library model"]
     import os
     if os.environ.get("QV_DEV_SKIP_DEDUCTIVE") != "1":     # development switch only: never set by a registered command
         deductive(rep, tier)
     recursion_obligations(rep)
+    from ..frame import no_module_state
+    no_module_state(rep, P, [TD + "tridiagonalize", TD + "internal_tridiagonalizer", TD + "householder_matrix", TD + "householder_vector", EG + "quaternion_eigendecomposition"], replay=replay_tridiag)
     bounded(rep, tier, seed)
     return rep
 
